@@ -274,7 +274,7 @@ fn c05_handle_time_is_never_torn() {
 	std::mem::forget(clock); std::mem::forget(h);
 }
 
-// @h prop=C01 tier=quick kind=finding:F5 timeout=280
+// @h prop=C01 tier=quick kind=finding:F5 timeout=600
 // @bounds a running clock at an absurd but finite speed (1e18 ticks/s), one update of 1/4 s: the tick loop `while tick_timer >= 1.0` must terminate within 8 iterations
 // @funcs Clock::update
 // @catches (finding F5) the audio callback not returning for a huge clock speed
@@ -290,7 +290,7 @@ fn c01_find_clock_huge_speed_loop_unbounded() {
 	std::mem::forget(clock); std::mem::forget(_h);
 }
 
-// @h prop=C05 tier=quick kind=finding:F9 timeout=280
+// @h prop=C05 tier=quick kind=finding:F9 timeout=600
 // @bounds real Clocks storage (capacity 1) with one running clock at tick 5; a zero-length speed change scheduled on the clock's OWN time (tick 2, already reached); the speed parameter updated as Clocks::update does it (inside SelfReferentialResourceStorage::for_each, with the other clocks as Info)
 // @funcs SelfReferentialResourceStorage::for_each, Parameter::<ClockSpeed>::update_tween, Info::when_to_start
 // @catches (finding F9) a speed change scheduled on the clock's own time never taking effect: while a clock is updated it is swapped out of the arena for a dummy, so its own id resolves to a clock that is not ticking
